@@ -223,6 +223,16 @@ def true_conditions(prog, fn_key):
                     continue            # returns false here
             else:
                 atoms.append((e, pol))
+                # what the returned comparison implies *in this body* (`obj == target` with `obj` assembled by a desugared
+                # `.map(..)`: the payload equality and the guards of the Some definition) - the caller cannot expand a value
+                # assembled in another body
+                if e[0] == "call" and (e[1].endswith("PartialEq::eq") or e[1].endswith("PartialEq::ne")) and len(e[2]) == 2:
+                    try:
+                        for (ie, ipol, iv, isb) in _option_eq_implied(body, e, pol if e[1].endswith("::eq") else (not pol), 0):
+                            if ipol is not None:
+                                atoms.append((ie, ipol))
+                    except Exception:
+                        pass
         elif d[0] == "call":
             t = d[2]
             atoms.append((("call", callee_path(t), [body.expr_of_operand(a) for a in t["args"]], d[1]), True))
@@ -316,6 +326,11 @@ def _option_eq_implied(body, e, equal, depth):
     if not equal:
         return []
     a, b = strip(e[2][0]), strip(e[2][1])
+    prog_ = getattr(body.fn, "prog", None)
+    if prog_ is not None and ("upvar" in (a[0], b[0]) or any(x[0] == "upvar" for x in subexprs(a)) or any(x[0] == "upvar" for x in subexprs(b))):
+        # the value compared with was hoisted out of the closure: look at what was captured
+        a = strip(deep(prog_, body.fn.key, a)) if a[0] != "phi" else a
+        b = strip(deep(prog_, body.fn.key, b)) if b[0] != "phi" else b
     if a[0] != "phi":
         a, b = b, a
     if a[0] != "phi" or not (b[0] == "agg" and b[2] == "Some" and b[3]):
